@@ -70,6 +70,10 @@ def notBeforeTrigger (hooks : List Hook) (seg : List IEv) : Bool :=
         | some pm, some px => pm < px
         | _, _ => false
 
+/-- position of the last start marker `name` strictly before position `p` (the occurrence of the moment a record belongs to) -/
+def occurrence (seg : List IEv) (name : String) (p : Nat) : Nat :=
+  ((seg.take p).zipIdx.foldl (fun acc (e, i) => if isMark name false e then i + 1 else acc) 0)
+
 /-- (c) await barrier for calls whose await point lies LATER IN THE SAME MOMENT as
     their trigger (same moment, await weight ≥ trigger weight, and both weights in the
     same pass): the moment's finish marker comes after the call's exit. -/
@@ -83,16 +87,15 @@ def awaitBarrierSameMoment (hooks : List Hook) (seg : List IEv) : Bool :=
       if hk.await = hk.trig ∧ hk.tw ≤ hk.aw ∧ samePass hk.tw hk.aw ∧ hk.trig ≠ .destroy ∧ hk.trig ≠ .afterDestroy then
         match indexOf? seg (isXs h k), indexOf? seg (isXe h k) with
         | some px, some pe =>
-          -- the first finish marker of the trigger moment after the call's entry
-          match indexOf? (seg.drop px) (isMark hk.trig.name true) with
-          | some d => pe < px + d
-          | none => true            -- the moment did not finish (run-number failure path)
+          -- the occurrence of the trigger moment this call belongs to: the last start marker before its
+          -- entry; the call must have returned before THAT occurrence's finish marker
+          let ps := occurrence seg hk.trig.name px
+          if ps = 0 then false
+          else match indexOf? (seg.drop ps) (isMark hk.trig.name true) with
+            | some d => pe < ps + d
+            | none => true            -- the moment did not finish (run-number failure path)
         | _, _ => false             -- never returned within the request
       else true
-
-/-- position of the last start marker `name` strictly before position `p` (the occurrence of the moment a record belongs to) -/
-def occurrence (seg : List IEv) (name : String) (p : Nat) : Nat :=
-  ((seg.take p).zipIdx.foldl (fun acc (e, i) => if isMark name false e then i + 1 else acc) 0)
 
 /-- (d) weight order among hooks that are awaited at their own trigger point and were
     executed in the same request at the same moment: lower weight finishes before a
